@@ -22,6 +22,7 @@ type genCtx struct {
 	depth  int  // nesting of blocks / closures
 	helper bool // helper function gf5 exists and may be called
 	inHelp bool
+	inInit bool // generating the extra statements of an initializer
 }
 
 func (g *genCtx) ln() int  { *g.nextLn++; return *g.nextLn }
@@ -262,7 +263,8 @@ func (g *genCtx) genTy(t *Ty, d int) *Exp {
 			case 3:
 				if d < 2 {
 					tt := int64(0)
-					if r.Chance(1, 4) {
+					// inside an initializer's extra statements a constructor call with t = 1 would recurse forever
+					if r.Chance(1, 4) && !g.inInit {
 						tt = 1
 					}
 					return &Exp{Kind: "New", CK: "KS", Args: []*Exp{g.genInt(d + 1), g.mustTy(tArr(tInt), d+1), g.mustTy(tArr(tS), d+2),
@@ -719,6 +721,7 @@ func genCase(r *lib.Rng, name string) *Case {
 		ps := []Param{{idIX, tInt}, {idIArr, tArr(tInt)}, {idIKids, tArr(tS)}, {idIRefs, tArr(tRefN(tS))}, {idID, tDict}, {idIT, tInt}}
 		g := mk("S", ps)
 		g.depth = 1
+		g.inInit = true
 		if g.impure < 120 && r.Chance(1, 2) {
 			g.impure = 120
 		}
@@ -728,6 +731,7 @@ func genCase(r *lib.Rng, name string) *Case {
 		// the resource array parameter has been moved into self.kids when the extra statements run
 		g := mk("R", []Param{{idIX, tInt}, {idIArr, tArr(tInt)}, {idIT, tInt}})
 		g.depth = 1
+		g.inInit = true
 		if g.impure < 120 && r.Chance(1, 2) {
 			g.impure = 120
 		}
